@@ -30,7 +30,7 @@ Qed.
 
 Theorem tie_IsMetachainIdentifier : forall id, P.IsMetachainIdentifier id = Some (is_metachain_identifier id).
 Proof.
-  intros id. unfold P.IsMetachainIdentifier, is_metachain_identifier.
+  intros id. unfold P.IsMetachainIdentifier, is_metachain_identifier. cbv zeta. rewrite ?go_for_range_len.
   rewrite (go_for_upto_all (fun b => (b2n b =? C.metaChainShardIdentifier)%N) false).
   - destruct id as [|b r]; [reflexivity|]. tie.
   - intros i b Hi. rewrite (go_index_nth _ _ _ Hi). tie.
